@@ -32,6 +32,7 @@ MIN_REACH = {
     "rows_decoded": {"quick": 1200, "thorough": 20000},
     "crop_runs": {"quick": 60, "thorough": 1000},
     "new_samplers": {"quick": 60, "thorough": 1000},
+    "crops_reaped_by_a_reloaded_crop": {"quick": 20, "thorough": 350},
     "older_sampler_reused": {"quick": 8, "thorough": 150},
     "generator_draws_matched": {"quick": 300, "thorough": 5000},
 }
@@ -46,7 +47,7 @@ def cases(ctx):
             r = {"how": rng.choice(["sample", "sample", "crop"]), "n": rng.randint(1, 12), "new_sampler": rng.random() < 0.4,
                  "reuse_old": rng.random() < 0.35,
                  "override": rng.choice([None, None, "lists", "gens", "mixed"]), "shuffle": rng.choice([False, False, True, 5]),
-                 "batchsize": rng.choice([None, 1, 2, 3, 5]), "reload_crop": rng.random() < 0.5, "rseed": rng.randint(0, 10 ** 9)}
+                 "batchsize": rng.choice([None, 1, 2, 3, 5]), "reload_crop": rng.random() < 0.5, "reap_reloaded": rng.random() < 0.5, "rseed": rng.randint(0, 10 ** 9)}
             runs.append(r)
         no_args = rng.random() < 0.08
         if no_args:
@@ -115,7 +116,13 @@ def run_case(ctx, case):
         if s is None or (run["new_sampler"] and not case["mem_only"]):
             if s is not None:
                 ctx.count("new_samplers")
-            s = new_sampler(rng)
+            try:
+                s = new_sampler(rng)
+            except Exception as e:
+                ctx.violation(dict(case, at=list(hist)), "after %s a new Sampler on the same table could not be created: %r" % (hist, e),
+                              dict(sig, oracle="new-sampler-continues", **exc_sig(e)))
+                nviol += 1
+                break
             alive.append(s)
         elif run.get("reuse_old") and len(alive) > 1 and not case["mem_only"]:
             # an OLDER sampler object (another session that is still open) runs again after newer ones appended
@@ -169,7 +176,15 @@ def run_case(ctx, case):
                         xyzpy.Crop(name="smp", parent_dir=tmp).grow_missing()
                     else:
                         crop.grow_missing()
-                    last = crop.reap()
+                    if run.get("reap_reloaded") and not case["mem_only"]:
+                        # the crop is reaped by a Crop re-created from disk (a cluster job / fresh session): its farmer is
+                        # the Sampler as stored with the crop; the table on disk must continue exactly as configured
+                        last = xyzpy.Crop(name="smp", parent_dir=tmp).reap()
+                        ctx.count("crops_reaped_by_a_reloaded_crop")
+                        s = new_sampler(rng)
+                        alive.append(s)
+                    else:
+                        last = crop.reap()
                     ctx.count("crop_runs")
         except Exception as e:
             err = e
@@ -179,7 +194,14 @@ def run_case(ctx, case):
             nviol += 1
             break
         bad = []
-        full = s.full_df
+        try:
+            with quiet():
+                full = s.full_df
+        except Exception as e:
+            ctx.violation(dict(case, at=list(hist)), "after %s reading the Sampler's table raised %r" % (hist, e),
+                          dict(sig, oracle="table-readable", how=run["how"], **exc_sig(e)))
+            nviol += 1
+            break
         rows = full.to_dict("records")
         lrows = last.to_dict("records")
         missing_cols = [c for c in cols if c not in full.columns]
